@@ -189,7 +189,9 @@ class Tags:
                 "commit": rng.random() < 0.5, "ops": ops, "twin_branch": twin, "moved_remote_tag": moved,
                 # the checked-out branch has no upstream (new local branch, detached HEAD of a CI checkout): the remote is
                 # then only known through remote.origin.url
-                "no_upstream": rng.random() < 0.3}
+                "no_upstream": rng.random() < 0.3,
+                # HEAD detached at the tip of the chosen branch (what CI systems check out)
+                "detached": rng.random() < 0.2}
 
     # ---- world building ---------------------------------------------------------------------------
     def build_fake(self, case, d):
@@ -221,6 +223,8 @@ class Tags:
         if case.get("moved_remote_tag"):
             repo.moved_remote_tags = ["floating"]
         repo.switch(main if case["head"] == "main" else case["head"])
+        if case.get("detached") and pers == "git":
+            repo.detached = True
         return repo
 
     def build_real(self, case, d, clock):
@@ -248,6 +252,8 @@ class Tags:
             rg.git("push", "-q", "origin", "--tags")
             rg.git("tag", "-f", "floating", chains["main"][1], cwd=rg.remote_path)
         rg.git("checkout", "-q", case["head"])
+        if case.get("detached"):
+            rg.git("checkout", "-q", "--detach")
         rg.all_tags = set(rg.tags())
         rg.reachable_tags = set(rg.tags_merged())
         if case.get("moved_remote_tag"):
@@ -308,6 +314,8 @@ class Tags:
             ctx.probe("tag_moved_on_the_remote")
         if case.get("no_upstream"):
             ctx.probe("branch_without_upstream")
+        if case.get("detached"):
+            ctx.probe("detached_head")
         ctx.probe("personality_" + case.get("pers", "git"))
         two_digit = gp.has_two_digit_year(tree)
         for op in case["ops"]:
